@@ -24,7 +24,8 @@ type atCall struct {
 }
 
 type LoopSpec struct {
-	Invs []*Clause
+	Invs  []*Clause
+	Exits []*Clause // "exit <expr>": proved at every way out of the loop, then assumed (a cut)
 	Decr *Clause
 }
 
@@ -79,7 +80,7 @@ type TypeSpec struct {
 }
 
 var clauseKeywords = map[string]bool{"property": true, "requires": true, "ensures": true, "modifies": true,
-	"panics": true, "loop": true, "invariant": true, "decreases": true, "trusted": true, "pure": true, "mode": true,
+	"panics": true, "loop": true, "invariant": true, "decreases": true, "exit": true, "trusted": true, "pure": true, "mode": true,
 	"nosafety": true, "utf8": true, "order": true, "atcall": true, "assumes": true, "ghostfield": true, "holds": true, "nowrap": true, "exclusive": true, "inline": true, "forall": true, "guards": true, "lockinv": true, "ghost": true, "unroll": true}
 
 // rewriteImplies turns `A ==> B` (lowest precedence, right associative, split at
@@ -498,6 +499,10 @@ func (e *Engine) parseContractFile(p *packages.Package, f *ast.File, fname strin
 				curLoop.Invs = append(curLoop.Invs, cl)
 			} else if curType != nil {
 				curType.Invs = append(curType.Invs, cl)
+			}
+		case "exit":
+			if curLoop != nil {
+				curLoop.Exits = append(curLoop.Exits, e.parseClause(rest, where))
 			}
 		case "decreases":
 			if curLoop != nil {
